@@ -1,0 +1,159 @@
+// Copyright 2025 The GoGPU Authors
+// SPDX-License-Identifier: MIT
+
+package ir
+
+// CloneModule returns a copy of src on which IR passes may run in place without
+// ever writing into src. On top of what CloneModuleForOverrides copies it also
+// duplicates the global variables, every statement body including nested
+// blocks, and the optional handles and handle lists that statements and
+// expressions keep behind pointers and slices. Types are shared read-only
+// (the slice itself is copied so that appending to it stays private).
+func CloneModule(src *Module) *Module {
+	dst := CloneModuleForOverrides(src)
+
+	if src.Types != nil {
+		dst.Types = make([]Type, len(src.Types))
+		copy(dst.Types, src.Types)
+	}
+	if src.GlobalVariables != nil {
+		dst.GlobalVariables = make([]GlobalVariable, len(src.GlobalVariables))
+		copy(dst.GlobalVariables, src.GlobalVariables)
+	}
+	dst.GlobalExpressions = cloneExpressions(src.GlobalExpressions)
+
+	for i := range src.Functions {
+		dst.Functions[i].Expressions = cloneExpressions(src.Functions[i].Expressions)
+		dst.Functions[i].Body = cloneBlock(src.Functions[i].Body)
+	}
+	for i := range src.EntryPoints {
+		dst.EntryPoints[i].Function.Expressions = cloneExpressions(src.EntryPoints[i].Function.Expressions)
+		dst.EntryPoints[i].Function.Body = cloneBlock(src.EntryPoints[i].Function.Body)
+	}
+	return dst
+}
+
+// cloneHandlePtr returns a fresh copy of an optional expression handle.
+func cloneHandlePtr(p *ExpressionHandle) *ExpressionHandle {
+	if p == nil {
+		return nil
+	}
+	h := *p
+	return &h
+}
+
+// cloneHandles returns a copy of a handle slice, preserving nil-ness.
+func cloneHandles(src []ExpressionHandle) []ExpressionHandle {
+	if src == nil {
+		return nil
+	}
+	dst := make([]ExpressionHandle, len(src))
+	copy(dst, src)
+	return dst
+}
+
+// cloneExpressions copies an expression arena. Optional handles stored behind
+// pointers and handle slices are duplicated so that rewriting them in the copy
+// does not write into the source arena.
+func cloneExpressions(src []Expression) []Expression {
+	dst := make([]Expression, len(src))
+	for i, expr := range src {
+		switch k := expr.Kind.(type) {
+		case ExprCompose:
+			k.Components = cloneHandles(k.Components)
+			expr.Kind = k
+		case ExprPhi:
+			if k.Incoming != nil {
+				k.Incoming = append(make([]PhiIncoming, 0, len(k.Incoming)), k.Incoming...)
+			}
+			expr.Kind = k
+		case ExprImageSample:
+			k.ArrayIndex = cloneHandlePtr(k.ArrayIndex)
+			k.DepthRef = cloneHandlePtr(k.DepthRef)
+			k.Offset = cloneHandlePtr(k.Offset)
+			expr.Kind = k
+		case ExprImageLoad:
+			k.ArrayIndex = cloneHandlePtr(k.ArrayIndex)
+			k.Sample = cloneHandlePtr(k.Sample)
+			k.Level = cloneHandlePtr(k.Level)
+			expr.Kind = k
+		case ExprImageQuery:
+			if q, ok := k.Query.(ImageQuerySize); ok {
+				q.Level = cloneHandlePtr(q.Level)
+				k.Query = q
+			}
+			expr.Kind = k
+		case ExprMath:
+			k.Arg1 = cloneHandlePtr(k.Arg1)
+			k.Arg2 = cloneHandlePtr(k.Arg2)
+			k.Arg3 = cloneHandlePtr(k.Arg3)
+			expr.Kind = k
+		}
+		dst[i] = expr
+	}
+	return dst
+}
+
+// cloneBlock deep-copies a statement block: nested blocks, optional handles
+// stored behind pointers and argument slices are all duplicated.
+func cloneBlock(src Block) Block {
+	if src == nil {
+		return nil
+	}
+	dst := make(Block, len(src))
+	for i, stmt := range src {
+		switch k := stmt.Kind.(type) {
+		case StmtBlock:
+			k.Block = cloneBlock(k.Block)
+			stmt.Kind = k
+		case StmtIf:
+			k.Accept = cloneBlock(k.Accept)
+			k.Reject = cloneBlock(k.Reject)
+			stmt.Kind = k
+		case StmtSwitch:
+			if k.Cases != nil {
+				cases := make([]SwitchCase, len(k.Cases))
+				copy(cases, k.Cases)
+				for j := range cases {
+					cases[j].Body = cloneBlock(cases[j].Body)
+				}
+				k.Cases = cases
+			}
+			stmt.Kind = k
+		case StmtLoop:
+			k.Body = cloneBlock(k.Body)
+			k.Continuing = cloneBlock(k.Continuing)
+			k.BreakIf = cloneHandlePtr(k.BreakIf)
+			stmt.Kind = k
+		case StmtReturn:
+			k.Value = cloneHandlePtr(k.Value)
+			stmt.Kind = k
+		case StmtImageStore:
+			k.ArrayIndex = cloneHandlePtr(k.ArrayIndex)
+			stmt.Kind = k
+		case StmtAtomic:
+			k.Result = cloneHandlePtr(k.Result)
+			if exchange, ok := k.Fun.(AtomicExchange); ok {
+				exchange.Compare = cloneHandlePtr(exchange.Compare)
+				k.Fun = exchange
+			}
+			stmt.Kind = k
+		case StmtImageAtomic:
+			k.ArrayIndex = cloneHandlePtr(k.ArrayIndex)
+			if exchange, ok := k.Fun.(AtomicExchange); ok {
+				exchange.Compare = cloneHandlePtr(exchange.Compare)
+				k.Fun = exchange
+			}
+			stmt.Kind = k
+		case StmtCall:
+			k.Arguments = cloneHandles(k.Arguments)
+			k.Result = cloneHandlePtr(k.Result)
+			stmt.Kind = k
+		case StmtSubgroupBallot:
+			k.Predicate = cloneHandlePtr(k.Predicate)
+			stmt.Kind = k
+		}
+		dst[i] = stmt
+	}
+	return dst
+}
